@@ -839,7 +839,7 @@ func (vc *VC) frameObligations(st *State, guard string, pos token.Pos, kind stri
 	// variables possibly changed: those whose current term differs from the entry term
 	names := sortedKeys(vc.stateSort)
 	for _, n := range names {
-		if whole[n] || strings.HasPrefix(n, "rng_") {
+		if whole[n] || strings.HasPrefix(n, "rng_") || strings.HasPrefix(n, "rngpos_") {
 			continue
 		}
 		sortName := vc.stateSort[n]
